@@ -392,7 +392,8 @@ class LTV(LTI):
             For nonlinear systems, the users have to call this function before getting the
             linearized system.
         '''
-        self.systime = t
+        if t is not None:
+            self.systime = t
         return self
 
 
